@@ -108,10 +108,20 @@ def run(chk: Check):
     records: List[dict] = []
     try:
         # AKAI
-        cases = c01.generate(chk, 64 if not thorough else 240, chk.seed + 41, label="AKAI images for truncation", nsect=14, maxparts=2, maxvols=2, maxfiles=3)
+        cases = c01.generate(chk, 200 if not thorough else 400, chk.seed + 41, label="AKAI images for truncation", nsect=14, maxparts=2, maxvols=2, maxfiles=3)
+        def inversions(c):      # directory order vs allocation order: a later entry lying physically before an earlier one
+            n = 0
+            for p in c["parts"]:
+                for v in p["vols"]:
+                    fs = v["files"]
+                    n += sum(1 for i in range(len(fs)) for j in range(i + 1, len(fs))
+                             if not fs[i]["pair"] and not fs[j]["pair"] and fs[i]["chain"][0] > max(fs[j]["chain"]))
+            return n
+        inv = sorted(cases, key=lambda c: -inversions(c))[:(2 if not thorough else 8)]
         pick = sorted(cases, key=lambda c: (-len(c["parts"]), -sum(len(v["files"]) for p in c["parts"] for v in p["vols"])))
         pick = (pick[:3] + [c for c in cases if any(f["pair"] for p in c["parts"] for v in p["vols"] for f in v["files"])][:2]) if not thorough else \
                (pick[:12] + [c for c in cases if any(f["pair"] for p in c["parts"] for v in p["vols"] for f in v["files"])][:8])
+        pick = inv + [c for c in pick if c not in inv]
         for ci, case in enumerate(pick):
             image = aw.build_image(case, chk.seed + ci)
             full = export_observed(image, work, "image.img")
@@ -119,8 +129,9 @@ def run(chk: Check):
                 raise tlc.TlcError(f"complete AKAI image does not export: {full['err']}")
             needs = [("/".join(n["path"]) + ".wav", n["need"]) for n in case["needs"]]
             cuts = sorted(set(case["cuts"]))
-            if not thorough:
-                cuts = cuts[:: max(1, len(cuts) // 70)]
+            if not thorough:          # all cuts inside structures, a stride of the boundary cuts
+                inner = sorted(set(case["inner_cuts"]))
+                cuts = sorted(set(inner + cuts[:: max(1, len(cuts) // 50)]))
             for cut in cuts:
                 obs = export_observed(image[:cut], work, "image.img")
                 judge_cut(chk, "akai", cut, obs, full["files"], needs, {"id": ci, "case": case, "seed": chk.seed + ci, "kind": "akai"}, records)
